@@ -122,6 +122,19 @@ type hid struct {
 	QL Leaf
 }
 
+// Arr: array-typed (and one slice-typed) fields. A path never continues into an array: arrays are
+// values that are moved as a whole (from / to a field, a map element, an `any` position, or as the
+// whole input of a node whose input type is an array or a pointer to one).
+type Arr struct {
+	A2 [2]string
+	AL [2]Leaf
+	AI [3]int
+	PA *[2]string
+	MA map[string][2]string
+	SL []string
+	AA any
+}
+
 type EmbH struct {
 	*hid
 	X string
@@ -154,6 +167,13 @@ var (
 	tPEmbD  = reflect.TypeOf(&EmbD{})
 	tEmbH   = reflect.TypeOf(EmbH{})
 	tMapEP  = reflect.TypeOf(map[string]EmbP{})
+	tArr    = reflect.TypeOf(Arr{})
+	tPArr   = reflect.TypeOf(&Arr{})
+	tA2     = reflect.TypeOf([2]string{})
+	tPA2    = reflect.TypeOf(&[2]string{})
+	tAL     = reflect.TypeOf([2]Leaf{})
+	tAI     = reflect.TypeOf([3]int{})
+	tMapA2  = reflect.TypeOf(map[string][2]string{})
 )
 
 // declared predecessor output types (sources) and successor input types (targets)
@@ -161,6 +181,28 @@ var srcTypes = []reflect.Type{tTop, tPTop, tMid, tPMid, tLeaf, tPLeaf, tMapAny, 
 	tEmbV, tEmbP, tPEmbP, tEmbD, tPEmbD, tEmbH, tMapEP, tString, tInt}
 var tgtTypes = []reflect.Type{tTop, tPTop, tMid, tPMid, tLeaf, tPLeaf, tMapAny, tMapStr, tMapL, tMapPL, tMapM, tMapPM,
 	tEmbV, tEmbP, tPEmbP, tEmbD, tPEmbD, tEmbH, tMapEP, tAny, tString}
+
+// the array family: declared types with array-typed positions and array types as whole outputs / inputs
+// (picked with a probability of their own, see tryGenCase)
+var arrSrcTypes = []reflect.Type{tArr, tPArr, tMapA2, tA2, tAL}
+var arrTgtTypes = []reflect.Type{tArr, tPArr, tMapA2, tA2, tPA2, tAL, tAI}
+
+func inTypes(ts []reflect.Type, t reflect.Type) bool {
+	for _, x := range ts {
+		if x == t {
+			return true
+		}
+	}
+	return false
+}
+
+// arrayType: an array or a pointer to one (the whole input of a node, no path leads into it)
+func arrayType(t reflect.Type) bool {
+	if t.Kind() == reflect.Ptr {
+		t = t.Elem()
+	}
+	return t.Kind() == reflect.Array
+}
 
 // embTypes: the declared types with embedded fields (picked more often than their share of the universe)
 var embTypes = []reflect.Type{tEmbV, tEmbP, tPEmbP, tEmbD, tPEmbD, tEmbH, tMapEP}
@@ -506,6 +548,11 @@ func init() {
 	regSrc[map[string]EmbP]()
 	regSrc[string]()
 	regSrc[int]()
+	regSrc[Arr]()
+	regSrc[*Arr]()
+	regSrc[map[string][2]string]()
+	regSrc[[2]string]()
+	regSrc[[2]Leaf]()
 
 	regTgt[Top]()
 	regTgt[*Top]()
@@ -528,6 +575,13 @@ func init() {
 	regTgt[map[string]EmbP]()
 	regTgt[any]()
 	regTgt[string]()
+	regTgt[Arr]()
+	regTgt[*Arr]()
+	regTgt[map[string][2]string]()
+	regTgt[[2]string]()
+	regTgt[*[2]string]()
+	regTgt[[2]Leaf]()
+	regTgt[[3]int]()
 
 	regRow[Top]()
 	regRow[*Top]()
@@ -538,12 +592,12 @@ func init() {
 	regRow[EmbP]()
 	regRow[EmbD]()
 
-	for _, s := range srcTypes {
+	for _, s := range append(append([]reflect.Type(nil), srcTypes...), arrSrcTypes...) {
 		if wfFrom[s] == nil || predOf[s] == nil {
 			panic(fmt.Sprintf("source type %v not registered", s))
 		}
 	}
-	for _, t := range tgtTypes {
+	for _, t := range append(append([]reflect.Type(nil), tgtTypes...), arrTgtTypes...) {
 		if wfTo[t] == nil || succOf[t] == nil {
 			panic(fmt.Sprintf("target type %v not registered", t))
 		}
